@@ -61,11 +61,18 @@ BaseTexts == <<
     <<P!It("def", P!X_Type(AG(<<P!X_AFn("align", <<I(4)>>)>>), "pub", "T",
         <<P!X_Field(P!NoAttrs, "pub", "a", U("u32")),
           P!X_Field(AG(<<P!X_AFn("address", <<I(8)>>)>>), "priv", "_", P!X_Arr(U("u32"), NumInt(2))),
-          P!X_Field(P!NoAttrs, "pub", "b", U("u32"))>>))>>)
+          P!X_Field(P!NoAttrs, "pub", "b", U("u32"))>>))>>),
+  (* 6: markers: a copyable, defaultable type over a copyable, defaultable enum and an array *)
+  P!X_Mod(P!NoAttrs,
+    <<P!It("def", P!X_Enum(AG(<<P!X_AId("copyable"), P!X_AId("defaultable")>>), "pub", "E", U("u8"),
+        <<P!X_Var(AG(<<P!X_AId("default")>>), "A"), P!X_VarEq(P!NoAttrs, "B", I(3))>>)),
+      P!It("def", P!X_Type(AG(<<P!X_AId("copyable"), P!X_AId("defaultable"), P!X_AFn("align", <<I(4)>>)>>), "pub", "T",
+        <<P!X_Field(P!NoAttrs, "pub", "e", U("E")), P!X_Field(P!NoAttrs, "pub", "n", P!X_Arr(U("u8"), NumInt(3)))>>))>>)
 >>
 
 Alpha == <<P!Pu("#"), P!Pu("["), P!Pu("]"), P!Pu("("), P!Pu(")"), P!Pu(","), P!Pu(":"), P!Pu("_"), P!Kw("pub"),
            P!Id("size"), P!Id("align"), P!Id("address"), P!Id("packed"), P!Id("base"), P!Id("index"), P!Id("u8"), P!Id("u64"), P!Id("T"),
+           P!Id("copyable"), P!Id("cloneable"), P!Id("default"),
            P!In(NumInt(0)), P!In(NumInt(1)), P!In(NumInt(3)), P!In(NumInt(4)), P!In(NumInt(8)), P!In(NumInt(16)), P!In(NumInt(0 - 8)),
            P!St("thiscall"), P!St("pascal")>>
 
